@@ -163,7 +163,10 @@ impl<'a> Parser<'a> {
                 }
             }
             if self.at(TokenKind::Eof) {
-                break;
+                if end_token.is_none() {
+                    break;
+                }
+                // Inside a block: let the Eof arm above report the missing terminator
             } else if self.at(TokenKind::Eol) {
                 self.skip();
             } else {
